@@ -410,7 +410,7 @@ func (c *Ctx) ruleSitesCTOR() {
 			case "CTOR01":
 				c.dispatch(si, rule, []string{"CompositeLit<node>"})
 			case "CTOR02":
-				c.dispatch(si, rule, []string{"CallExpr<node>", "Ident<CallExpr.Fun>"})
+				c.dispatch(si, rule, []string{"CallExpr<node>", "Ident<unparen(CallExpr.Fun)>"})
 				nw := si.take("new", func(l Lit) bool {
 					if l.Kind != "eq" || !l.Pos {
 						return false
@@ -423,6 +423,24 @@ func (c *Ctx) ruleSitesCTOR() {
 					return false
 				})
 				c.require(si, rule, "CALLEE-IS-NEW(+)", nw, "the called identifier is not compared with \"new\"")
+				// ... and it resolves to the builtin: a user function or variable named new is not an instantiation
+				bi := si.take("builtin", func(l Lit) bool {
+					x, t, _ := typeAssertOK(l)
+					if x == nil || !l.Pos || typeStr(t) != "*go/types.Builtin" {
+						return false
+					}
+					return P.RootsAllDeep(x, func(r ssa.Value) bool {
+						lk, ok := r.(*ssa.Lookup)
+						if ok {
+							return strings.HasSuffix(P.Desc(lk.X), "go/types.Info.Uses)")
+						}
+						if call := P.CallTo(r, "(*go/types.Info).ObjectOf"); call != nil {
+							return true
+						}
+						return false
+					})
+				})
+				c.require(si, rule, "CALLEE-IS-BUILTIN(+)", bi, "the callee is matched by the spelling \"new\" only (no TypesInfo.Uses[ident].(*types.Builtin)): a call of a function or variable named new is reported as an instantiation")
 				one := si.take("one-arg", func(l Lit) bool {
 					if l.Kind != "eq" || !l.Pos {
 						return false
@@ -655,12 +673,12 @@ func (c *Ctx) ruleSitesTONL() {
 				}, &detail))
 				c.require(si, rule, "FUNCS-INDEX(+)", mem, detail)
 				if direct {
-					c.dispatch(si, rule, []string{"CallExpr<node>", "Ident<CallExpr.Fun>"})
+					c.dispatch(si, rule, []string{"CallExpr<node>", "Ident<unparen(CallExpr.Fun)>"})
 					// NAMEID: the identifier resolves to a package-level function of this package
 					nid := si.take("callee-object", func(l Lit) bool { return l.Pos && c.isPkgLevelFuncTest(l) })
 					c.require(si, rule, "CALLEE-BY-OBJECT(+)", nid, "direct call is matched by the spelling of the identifier only (no TypesInfo.Uses[ident].(*types.Func) at package scope): a local variable or parameter sharing the name is reported")
 				} else if viaPkgName {
-					c.dispatch(si, rule, []string{"CallExpr<node>", "SelectorExpr<CallExpr.Fun>", "Ident<SelectorExpr.X>"})
+					c.dispatch(si, rule, []string{"CallExpr<node>", "SelectorExpr<unparen(CallExpr.Fun)>", "Ident<SelectorExpr.X>"})
 					pn := si.take("pkgname", func(l Lit) bool {
 						x, t, _ := typeAssertOK(l)
 						return x != nil && l.Pos && typeStr(t) == "*go/types.PkgName"
@@ -683,7 +701,7 @@ func (c *Ctx) ruleSitesTONL() {
 					return true, ""
 				}, &detail))
 				c.require(si, rule, "METHODS-INDEX(+)", mem, detail)
-				c.dispatch(si, rule, []string{"CallExpr<node>", "SelectorExpr<CallExpr.Fun>"})
+				c.dispatch(si, rule, []string{"CallExpr<node>", "SelectorExpr<unparen(CallExpr.Fun)>"})
 			case "TONL01":
 				c.tonl01Dispatch(si, rule)
 				detail = "no positive testOnlyTypes.Contains(pkg(T), name(T)) on an index built by BuildTestOnlyTypesIndex"
